@@ -181,7 +181,7 @@ func (multiSource *MultiSource) processDependency(ctx context.Context, dep Depen
 	}
 
 	// When working through a dependency dataset, we first find all changes since the last run in that dependency
-	startPoints, continuation, err := multiSource.findChanges(depDataset, depSince, batchSize)
+	startPoints, continuation, changesSince, err := multiSource.findChanges(depDataset, depSince, batchSize)
 	if err != nil {
 		return fmt.Errorf("detecting changes in dependency dataset %+v failed, %w", dep, err)
 	}
@@ -254,9 +254,11 @@ func (multiSource *MultiSource) processDependency(ctx context.Context, dep Depen
 				// For non-inverse first-joins, we need to query back in time as well,
 				// to find related entities that have had their relation removed since "then"
 				if idx == 0 && !join.Inverse {
-					if depSince.AsIncrToken() > 0 {
+					// changesSince, not depSince: when an earlier dependency of this read works on the same dataset, it has
+					// already moved the dataset's token on to the end of the changes that are being processed here
+					if changesSince > 0 {
 						// get last change of previous run (cont-token minus 1 should give the last change index of previous processing run)
-						since := depSince.AsIncrToken() - 1
+						since := changesSince - 1
 
 						// improve this using the previous seq-numbers of the specific entity to find timestamps.
 						// also run queries for all changed versions of the entity, not just the last one,
@@ -386,24 +388,26 @@ func (multiSource *MultiSource) processDependency(ctx context.Context, dep Depen
 type changeURIData struct {
 	ids          []uint64
 	continuation uint64
+	since        uint64 // the token the changes were read from
 }
 
-// returns array of internal entity ids, changes-continuation, error
+// returns array of internal entity ids, changes-continuation, the token the changes were read from, error
 func (multiSource *MultiSource) findChanges(depDataset *server.Dataset, depSince *StringDatasetContinuation,
 	batchSize int,
-) ([]uint64, uint64, error) {
+) ([]uint64, uint64, uint64, error) {
 	if changes, ok := multiSource.changesCache[depDataset.ID]; ok {
-		return changes.ids, changes.continuation, nil
+		return changes.ids, changes.continuation, changes.since, nil
 	}
 
+	since := depSince.AsIncrToken()
 	ids := make([]uint64, 0)
-	continuation, err := depDataset.ProcessChanges(depSince.AsIncrToken(), batchSize, multiSource.LatestOnly,
+	continuation, err := depDataset.ProcessChanges(since, batchSize, multiSource.LatestOnly,
 		func(entity *server.Entity) {
 			ids = append(ids, entity.InternalID)
 		})
-	multiSource.changesCache[depDataset.ID] = changeURIData{ids, continuation}
+	multiSource.changesCache[depDataset.ID] = changeURIData{ids, continuation, since}
 
-	return ids, continuation, err
+	return ids, continuation, since, err
 }
 
 func (multiSource *MultiSource) getDatasetFor(dep Dependency) (*server.Dataset, error) {
